@@ -372,6 +372,16 @@ def coq_eval_cases(pid, imports, case_type, terms, shard=400, timeout=900, extra
             if not s:
                 return []
             return [int(x.replace("%nat", "").strip()) for x in s.split(";")]
+        for ext in (".v", ".vo", ".glob", ".vok", ".vos"):
+            for pre in ("", "."):
+                try:
+                    os.remove(os.path.join(cdir, pre + name + ext))
+                except OSError:
+                    pass
+        try:
+            os.remove(os.path.join(cdir, "." + name + ".aux"))
+        except OSError:
+            pass
         return si, parse(mm.group(1)), parse(vv.group(1)), None
 
     with cf.ThreadPoolExecutor(max_workers=jobs) as ex:
